@@ -208,8 +208,18 @@ def bl5(ctx, R):
     if holders[0] is not fi:
         fi = holders[0]
     md_calls = [c for c in walk_body(fi.node) if isinstance(c, ast.Call) and call_name(c) == "self.metadata"]
-    R.check(len(md_calls) == 1, "writer.TdmsSegment.write::metadata serialised once", fi.where(),
-            "the bytes measured are the bytes written", "metadata() is called %d times: the measured and the written metadata can differ" % len(md_calls))
+    if not md_calls:
+        # the metadata values come from somewhere else (a generator variant, a prepared field): which call produces them is found below
+        gen_calls = [c for c in walk_body(fi.node) if isinstance(c, ast.Call) and (call_name(c) or "").startswith("self.") and "metadata" in (call_name(c) or "")]
+        if len(gen_calls) == 1:
+            md_calls = gen_calls
+            R.ok("writer.TdmsSegment.write::metadata serialised once", fi.where(), "the metadata values are produced once, by `%s`" % call_name(gen_calls[0]))
+        else:
+            R.unrecognised("writer.TdmsSegment.write::metadata serialised once", fi.where(), "no call of self.metadata() where the header is built: how the metadata "
+                           "values are produced was not recognised (%d candidate calls)" % len(gen_calls))
+    else:
+        R.check(len(md_calls) == 1, "writer.TdmsSegment.write::metadata serialised once", fi.where(),
+                "the bytes measured are the bytes written", "metadata() is called %d times: the measured and the written metadata can differ" % len(md_calls))
     sy = Sym(prog, fi, fi.cls)
     env = sy.env_at_end()
     # the metadata list as the normal form of `self.metadata()` in write(): an opaque call when metadata() builds its list
@@ -236,8 +246,19 @@ def bl5(ctx, R):
         sums = collect(size_val, lambda x: isinstance(x, tuple) and x and x[0] == "sum")
         want_size = bool(sums) and sums[0][1] == ("len", ("attr", sums[0][2], "bytes")) and sums[0][3] == M and not sums[0][4] \
             and (size_val == sums[0] or size_val == ("binop", "+", tuple(sorted([("const", 0), sums[0]], key=repr))))
-    R.check(bool(want_size), "writer.TdmsSegment.write::metadata size", fi.where(), "metadata_size = sum(len(v.bytes)) over the metadata list that is written",
-            "the metadata size handed to leadin() is `%s`, not the summed byte length of the metadata list" % (show(alpha(size_val))[:120] if size_val else None))
+    joined_M = None
+    if size_val is not None and not want_size:
+        # len(b''.join(v.bytes for v in M)): the length of the very bytes that are written
+        if size_val[0] == "len" and isinstance(size_val[1], tuple) and size_val[1] and size_val[1][0] == "method" and size_val[1][1] == "join":
+            cs_ = collect(size_val[1], lambda x: isinstance(x, tuple) and x and x[0] == "comp")
+            if cs_ and cs_[0][1] == ("attr", cs_[0][2], "bytes") and cs_[0][3] == M and not cs_[0][4]:
+                want_size = True
+                joined_M = size_val[1]
+    if not want_size and size_val is not None and not collect(size_val, lambda x: isinstance(x, tuple) and x and x[0] in ("sum", "len")):
+        R.unrecognised("writer.TdmsSegment.write::metadata size", fi.where(), "the metadata size handed to leadin() is `%s`: not recognised as a measured length" % show(alpha(size_val))[:120])
+    else:
+        R.check(bool(want_size), "writer.TdmsSegment.write::metadata size", fi.where(), "metadata_size = summed byte length of the metadata values that are written",
+                "the metadata size handed to leadin() is `%s`, not the summed byte length of the metadata list" % (show(alpha(size_val))[:120] if size_val else None))
     # the writes, in order
     if fi is not write_fi:
         # header built by a helper: which of its results write() serialises first is read in write()'s own normal form
@@ -255,14 +276,19 @@ def bl5(ctx, R):
         v = sy.expr(c.args[0], sy.env_at_end(pre)) if c.args else None
         comps = collect(v, lambda x: isinstance(x, tuple) and x and x[0] == "comp") if v else []
         kind = "?"
-        if v and v[0] == "method" and v[1] == "join" and comps and comps[0][1] == ("attr", comps[0][2], "bytes"):
+        if v is not None and joined_M is not None and v == joined_M:
+            kind = "metadata"
+        elif v and v[0] == "method" and v[1] == "join" and comps and comps[0][1] == ("attr", comps[0][2], "bytes"):
             src = comps[0][3]
             if src == M:
                 kind = "metadata"
             elif src[0] == "call" and src[1] == "writer.TdmsSegment.leadin" or (src[0] == "list" and len(src[1]) == 5):
                 kind = "leadin"
         kinds.append(kind)
-    if "?" in kinds and holders[0] is not write_fi:
+    known_ = [k for k in kinds if k != "?"]
+    if "?" in kinds and known_ in (["leadin", "metadata"], ["leadin"], ["metadata"], []):
+        R.unrecognised("writer.TdmsSegment.write::write order", fi.where(), "not every write of the header was recognised (%s): the order lead-in, then metadata is not decided" % kinds)
+    elif "?" in kinds and holders[0] is not write_fi:
         R.unrecognised("writer.TdmsSegment.write::write order", fi.where(), "the header is built by %s; what write() serialises first was not recognised (%s)" % (
             holders[0].qual, kinds))
     else:
@@ -508,10 +534,14 @@ def bl6(ctx, R):
             continue
         ok = bool(guarded)
         for st, guards in guarded:
+            if isinstance(st, ast.Raise):
+                continue         # a rejected combination of arguments: nothing is written on that path
             calls = [c for c in ast.walk(st) if isinstance(c, ast.Call)]
             only_raw = isinstance(st, ast.Expr) and len(calls) >= 1 and call_reaches(ctx, fi, calls[0], {wd}) and isinstance(st.value, ast.Call) and st.value is calls[0]
             run_index = not any(eval_cond(g, lambda c: True if c == FLAG else None) is False for g in guards)
             run_data = not any(eval_cond(g, lambda c: False if c == FLAG else None) is False for g in guards)
+            if run_index and run_data:
+                continue         # the flag does not exclude this statement in either mode (e.g. it follows a validation that mentions the flag)
             if not (only_raw and run_data and not run_index):
                 ok = False
         # every syntactic use is the test of such an `if` (or the tag selection)
@@ -609,6 +639,13 @@ def bl6(ctx, R):
             R.violation("writer::tag replaced by substring replacement", "%s:%d" % (prog.module("writer").relpath, bad[0].lineno),
                         "`%s` rewrites every occurrence of the tag bytes in serialised metadata, including occurrences inside object names and "
                         "property values" % unparse(bad[0])[:80])
+        if bad:
+            return
+        if len(events) == 1:
+            # one segment object serves both files (its write() is handed both streams): the twin is not a second construction
+            R.unrecognised("writer.TdmsWriter.write_segment::index twin", ws.where(), "one TdmsSegment is constructed and written; how the index file's copy is produced "
+                           "from it was not recognised, so the twin's objects / version / stream are not decided")
+            return
         raise AnchorMissing("writer.TdmsWriter.write_segment: two TdmsSegment constructions (data and index), found %d" % len(events))
     objp = [p for p in init.params if p != "self"][0]
     flagp = [p for p in init.params if "index" in p][0]
